@@ -150,7 +150,9 @@ class Hist:
             f = fold(self.flav, nm)
             if f in d and d[f][1] == "dir":
                 return ["open %d %s %s %s" % (h, ps, hexs(nm), mode)]   # fails, not tracked
-            if "w" in mode and self.writer_open(p, nm):
+            if self.writer_open(p, nm):
+                return []                      # a reader beside a writer: what it must see before a flush is unspecified
+            if "w" in mode and self.any_open(p, nm):
                 mode = "r"
             if f not in d:
                 if "w" not in mode:
@@ -194,7 +196,7 @@ class Hist:
             return ["rm %s %s" % (ps, hexs(nm))]
         if r < 0.97:                            # comment / prot
             nm = self.pick_name(p, existing=True)
-            if nm is None:
+            if nm is None or self.any_open(p, nm):
                 return []
             if rng.random() < 0.5:
                 return ["comment %s %s %s" % (ps, hexs(nm), hexs(bytes(rng.choice(b"abc xyz") for _ in range(rng.choice([0, 1, 5, 22, 79, 80])))))]
